@@ -12,5 +12,7 @@ CONSTANTS
   MaxLeaves = 0
   Eps = {}
   Opts = {}
+  MaxPSize = 0
+  MaxPDepth = 0
 POSTCONDITION TraceDone
 CHECK_DEADLOCK FALSE
